@@ -115,12 +115,14 @@ Fixpoint jump_out_of_defer (ch:list fscope) : bool :=
   | s :: r => if fl s || ff s then false else if fdb s then true else jump_out_of_defer r
   end.
 
-Definition break_ok (ch:list fscope) : bool :=
-  negb (gen_break_continue_check_defer_block && jump_out_of_defer ch) && loop_found ch.
+Definition break_ok_pol (pol:bool) (ch:list fscope) : bool :=
+  negb (pol && jump_out_of_defer ch) && loop_found ch.
+Definition break_ok (ch:list fscope) : bool := break_ok_pol gen_break_continue_check_defer_block ch.
 
 (* the case number the analyzer records in casescope.switchcase_index for the c-th case block
    (1-based); analyzer.lua writes the constant scraped into Gen.v *)
-Definition recorded_case (c:nat) : nat := if gen_switchcase_index_is_loop_var then c else 1%nat.
+Definition recorded_case_pol (pol:bool) (c:nat) : nat := if pol then c else 1%nat.
+Definition recorded_case (c:nat) : nat := recorded_case_pol gen_switchcase_index_is_loop_var c.
 
 Definition fall_errs (ch:list fscope) (id:nat) (seen:bool) (last:bool) : errs :=
   match ch with
@@ -211,6 +213,16 @@ Definition assign_ok (fp:list nat) (d:decl) : bool :=
   | _ => false
   end.
 
+(* `function x() ... end` over an existing name: assigns to a plain variable of the same function, or defines /
+   redefines a declared function (the compiler's design: the redefined function is promoted to a variable).
+   DFun carries no owner: a redefinition reached from a NESTED function is outside the region the streams
+   generate and is judged by the rule table only (see UNPROVED in checks/C05.py) *)
+Definition funcassign_ok (fp:list nat) (d:decl) : bool :=
+  match d with
+  | DFun _ => true
+  | _ => assign_ok fp d
+  end.
+
 Definition call_ok (n:nat) (d:decl) : bool :=
   match d with DFun a => Nat.leb n a | DVar _ _ => false end.
 
@@ -224,7 +236,7 @@ Fixpoint rname_stmt (fp:list nat) (e:renv) (s:stmt) {struct s} : bool :=
   | Call f n => match rlookup f e with Some d => call_ok n d | None => false end
   | Func f ps b => rname_block (f :: fp) (rparams (f :: fp) ps ((f, DFun (length ps)) :: e)) b
   | FuncAssign x b =>        (* an assignment to x; the body is a new function *)
-    match rlookup x e with Some d => assign_ok fp d | None => false end && rname_block (x :: fp) e b
+    match rlookup x e with Some d => funcassign_ok fp d | None => false end && rname_block (x :: fp) e b
   | Do b | While b | Repeat b | For b | Defer b => rname_block fp e b
   | If t el => rname_block fp e t && rname_block fp e el
   | Switch cs _ d => rname_cases fp e cs && rname_block fp e d
@@ -282,18 +294,31 @@ Definition id_errs (ch:list nscope) (id x:nat) : errs * option sym :=
 (* visitors.Id with attr.forcesymbol (Id nodes built by aster.value for a Symbol interpolated by the
    preprocessor): no name lookup - the interpolation already produced the symbol, or nil for an unknown
    name - then the SAME accessibility check, which stands after the lookup branch (scraped) *)
-Definition forced_errs (ch:list nscope) (id x:nat) : errs * option sym :=
+Definition forced_errs_pol (pol:bool) (ch:list nscope) (id x:nat) : errs * option sym :=
   match chain_lookup x ch with
   | None => ([(id, KUndeclared)], None)
-  | Some y => (if gen_upvalue_check_covers_forced_symbols
-               then (if accessible ch y then [] else [(id, KUpvalue)]) else [], Some y)
+  | Some y => (if pol then (if accessible ch y then [] else [(id, KUpvalue)]) else [], Some y)
   end.
+Definition forced_errs := forced_errs_pol gen_upvalue_check_covers_forced_symbols.
 
 Definition const_errs (id:nat) (oy:option sym) : errs :=
   match oy with
   | Some y => match sar y, sq y with None, QVar => [] | _, _ => [(id, KConstAssign)] end
   | None => []
   end.
+
+(* visitors.FuncDef without local/global over an existing name (1fc2b5c): a const / comptime VARIABLE is refused;
+   a declared or forward declared FUNCTION symbol (varsym.funcdeclared / varsym.forwarddecl) is exempt - the
+   function is defined, or redefined ("promoted to variable"), by design *)
+Definition funcdef_errs_pol (pol:bool) (id:nat) (oy:option sym) : errs :=
+  match oy with
+  | Some y => match sar y with
+              | Some _ => []
+              | None => if pol then const_errs id oy else []
+              end
+  | None => []
+  end.
+Definition funcdef_errs := funcdef_errs_pol gen_funcdef_checks_const.
 
 Fixpoint aname_stmt (ch:list nscope) (id:nat) (s:stmt) {struct s} : errs :=
   match s with
@@ -318,7 +343,7 @@ Fixpoint aname_stmt (ch:list nscope) (id:nat) (s:stmt) {struct s} : errs :=
     (* visitor_FuncDef_variable traverses the name (visitors.Id), then visitors.FuncDef refuses a const /
        comptime variable (1fc2b5c, scraped), then the body is analysed in a new function scope *)
     let (e1, oy) := id_errs ch id x in
-    e1 ++ (if gen_funcdef_checks_const then const_errs id oy else []) ++
+    e1 ++ funcdef_errs id oy ++
     aname_block (mkn false [] :: mkn true [] :: ch) b
   | Func f ps b =>
     let ch1 := declare f (mksym QVar (Some (length ps)) (up_fun_id ch)) ch in
@@ -489,9 +514,10 @@ Definition goto_out_of_deferblock (l:nat) (fs:list lframe) : bool :=
   | None => match walk_meets_deferblock (lbl_final l) fs with Some b => b | None => false end
   end.
 
-Definition agoto (id l:nat) (fs:list lframe) : errs :=
+Definition agoto_pol (pol:bool) (id l:nat) (fs:list lframe) : errs :=
   agoto_mix id l fs ++
-  (if gen_goto_checks_defer_block && goto_out_of_deferblock l fs then [(id, KGotoDefer)] else []).
+  (if pol && goto_out_of_deferblock l fs then [(id, KGotoDefer)] else []).
+Definition agoto := agoto_pol gen_goto_checks_defer_block.
 
 (* Scope:find_label: walk the enclosing chain (up to the function scope), first scope that has the label *)
 Fixpoint find_label (l:nat) (fs:list lframe) : option lframe :=
@@ -638,6 +664,13 @@ with rconst_block (b:block) {struct b} : bool :=
 with rconst_cases (cs:cases) {struct cs} : bool :=
   match cs with CNil => true | CCons _ _ b r => rconst_block b && rconst_cases r end.
 
+Definition conv_errs_pol (pol:bool) (id t:nat) (v:Z) (viaconcept:bool) : errs :=
+  if viaconcept && negb pol then []
+  else match type_info t with
+       | Some (b, sg) => if is_inrange b sg v then [] else [(id, KRange)]
+       | None => [(id, KRange)]
+       end.
+
 Fixpoint aconst_stmt (id:nat) (s:stmt) {struct s} : errs :=
   match s with
   | ConstIndex len k =>
@@ -647,11 +680,7 @@ Fixpoint aconst_stmt (id:nat) (s:stmt) {struct s} : errs :=
     (* visitor_Call converts an argument twice: against the declared parameter type (a concept only suggests
        a concrete type, by TYPE) and then against the suggested type - the value check of a constant happens
        only in that second conversion, which must be unconditional (scraped) *)
-    if viaconcept && negb gen_call_rechecks_suggested_type then []
-    else match type_info t with
-         | Some (b, sg) => if is_inrange b sg v then [] else [(id, KRange)]
-         | None => [(id, KRange)]
-         end
+    conv_errs_pol gen_call_rechecks_suggested_type id t v viaconcept
   | ConstFrac _ => [(id, KRange)]
   | Func _ _ b | FuncAssign _ b | Do b | While b | Repeat b | For b | Defer b => aconst_block b
   | If t e => aconst_block t ++ aconst_block e
